@@ -60,7 +60,9 @@ pub broadcast axiom fn axiom_asref_path_ref<'a>(p: &'a std::path::Path)
     ensures #[trigger] <&'a std::path::Path as AsRefSpec<std::path::Path>>::as_ref_spec(&p) == p;
 pub broadcast axiom fn axiom_asref_pathbuf(p: &std::path::PathBuf)
     ensures path_comps(#[trigger] <std::path::PathBuf as AsRefSpec<std::path::Path>>::as_ref_spec(p)) == pb_comps(p);
-pub broadcast group group_asref_path { axiom_asref_path, axiom_asref_path_ref, axiom_asref_pathbuf }
+pub broadcast axiom fn axiom_asref_pathbuf_ref<'a>(p: &'a std::path::PathBuf)
+    ensures path_comps(#[trigger] <&'a std::path::PathBuf as AsRefSpec<std::path::Path>>::as_ref_spec(&p)) == pb_comps(p);
+pub broadcast group group_asref_path { axiom_asref_path, axiom_asref_path_ref, axiom_asref_pathbuf, axiom_asref_pathbuf_ref }
 
 // ---- unix path facts (target of this sandbox; cfg!(target_os = "windows") is false) ---------------
 // components(): RootDir only in front, no Prefix, CurDir only in front of a relative path.
